@@ -105,7 +105,7 @@ def worker(task):
                 res['wit'].append('second_call')
             for name, f in obls:
                 res['nobl'] += 1
-                ok, m = sx.valid(f)
+                ok, m = sx.valid(f, obligation=True)
                 if not ok:
                     if nfail[0] < 25 and hasattr(mod, 'prefer'):
                         m = _prefer_model(ctx, f, mod.prefer(rec), m)
@@ -199,6 +199,9 @@ class Report:
         self.solver_s = 0.0
         self.solver_checks = 0
         self.cuts = 0
+        self.cross = 0
+        self.cross_agree = 0
+        self.cross_s = 0.0
         self.failures = []
         self.witnesses = {}
         self.errors = []
@@ -219,6 +222,9 @@ class Report:
         self.solver_s += st.get('solver_s', 0.0)
         self.solver_checks += st.get('checks', 0)
         self.cuts += st.get('cuts', 0)
+        self.cross += st.get('cross', 0)
+        self.cross_agree += st.get('cross_agree', 0)
+        self.cross_s += st.get('cross_s', 0.0)
         self.failures.extend(out['failures'])
         for k, v in out['witnesses'].items():
             self.witnesses[k] = self.witnesses.get(k, 0) + v
@@ -297,6 +303,9 @@ def write_evidence(report, mod, exhaustive, violations, extra_cov=None):
         solver_checks=report.solver_checks,
         paths_with_sut_exception=report.exc_paths,
         cuts=report.cuts,
+        cvc5_cross_checked=report.cross,
+        cvc5_agree=report.cross_agree,
+        cvc5_s=round(report.cross_s, 2),
         functions_encoded=sorted(report.functions),
         bounds=getattr(mod, 'BOUNDS', {}).get(report.tier, getattr(mod, 'BOUNDS', {})),
         stubs=getattr(mod, 'STUBS', []),
